@@ -78,6 +78,13 @@ PROPS = {
         required="spec",
         nontrivial="an entity owning a component is deleted and its index is reused afterwards",
     ),
+    "C12": dict(
+        domain="world", module="Props.C12",
+        theorems=["C12_events_replay_membership", "C12_replay_composes", "C12_insert_reports",
+                  "C12_entity_deletion_reports", "C12_modified_exactly_on_mutable_access", "C12_read_only_is_silent"],
+        required="spec",
+        nontrivial="a reader reads at least one insertion, one removal and one modification event",
+    ),
     "C11": dict(
         domain="dispatch", module="Props.C11",
         theorems=["C11_stages_conflict_free", "C11_stages_respect_deps", "C11_staged_exactly_once",
@@ -230,8 +237,10 @@ CREATION = (wg.C, wg.CX, wg.CI, wg.EC, wg.ECI, wg.EB, wg.LC)
 
 def world_violation(pid, r):
     """returns a short description if result r shows property pid violated, else None"""
-    if not r["complete"]:
-        return "implementation panicked or produced an undecodable output (the model proves no step panics)"
+    if not r["complete"] and not r["eq"]:
+        # (a panic the faithful model predicts at the same point - e.g. the documented panic on an
+        # unregistered component - is not a divergence)
+        return "implementation panicked or produced an undecodable output where the model does not"
     pos, code = r["acc_pos"], r["acc_code"]
     op = r["hist"][pos][0] if 0 <= pos < len(r["hist"]) else None
     if pid == "C01":
@@ -262,6 +271,9 @@ def world_violation(pid, r):
                         pos, wg.NAMES.get(op, op)))
         if code == 4 and op in (wg.D, wg.DM, wg.DA, wg.M, wg.ED):
             return "the values destroyed by a deletion differ from the components of the deleted entities (op %d)" % pos
+    if pid == "C12":
+        if code == 1 and op == sg.RREAD:
+            return "the events delivered to a reader differ from the operations performed (op %d)" % pos
     if pid == "C04":
         if code == 1 and is_store and not stale:
             return "a storage operation returned something else than the plain map (op %d: %s)" % (pos, wg.NAMES.get(op, op))
@@ -297,6 +309,12 @@ def nontrivial_world(pid, r):
         return False
     if pid == "C04":
         return (sg.REM in codes or sg.DRN in codes) and sg.INS in codes
+    if pid == "C12":
+        kinds = set()
+        for k, o in enumerate(r["impl"]):
+            if o and o[0] == 18:
+                kinds |= set(o[2::2])
+        return kinds >= {0, 1, 2}
     if pid == "C05":
         has_comp = any(c in (wg.C, wg.CX, wg.EB) and len(p) >= 3 for c, p in r["hist"]) or sg.INS in codes
         return reuse and has_comp and bool(codes & {wg.D, wg.DM, wg.ED, wg.DA})
@@ -319,6 +337,10 @@ def gen_store(pid, tier, seed, scale, rng, hists, stats):
         for _ in range((100 if q else 1000) * scale):
             hists.append(sg.random_store_history(rng, rng.randint(10, 60)))
             stats["random storage histories"] += 1
+    if pid == "C12":
+        for _ in range((600 if q else 6000) * scale):
+            hists.append(sg.events_history(rng, rng.randint(15, 80 if q else 200)))
+            stats["event histories"] += 1
     if pid == "C04":
         for sid in range(16):
             for _ in range((40 if q else 400) * scale):
@@ -327,6 +349,9 @@ def gen_store(pid, tier, seed, scale, rng, hists, stats):
         for _ in range((300 if q else 3000) * scale):
             hists.append(sg.map_history(rng, rng.randint(10, 80)))
             stats["mixed-kind map histories"] += 1
+        for sid in (rng.sample(range(16), 2) if q else range(16)):
+            hists.append(sg.far_history(rng, sid))
+            stats["far-apart indices (>= 64^3)"] += 1
         for _ in range((200 if q else 2000) * scale):
             hists.append(sg.random_store_history(rng, rng.randint(10, 60)))
             stats["random storage histories"] += 1
@@ -458,6 +483,8 @@ def check_world(pid, tier, seed):
     needs = {"C03": ("Create", "Delete", "Insert", "Get", "GetMut", "Remove", "Entry", "GetMutOrDefault", "Contains"),
              "C05": ("Create", "Delete", "DeleteMany", "EDelete", "DeleteAll", "Maintain", "CreateDropped", "EBuild",
                      "Insert", "Get", "Mask", "Register"),
+             "C12": ("RegReader", "ReadEvents", "SetEmission", "Insert", "GetMut", "Remove", "Entry", "Drain", "Delete",
+                     "EDelete", "Maintain", "Create", "GetMutOrDefault"),
              "C04": ("Insert", "Get", "GetMut", "Remove", "Entry", "Drain", "Clear", "Slice", "Mask", "Count")}
     for need in needs.get(pid, ("Create", "DeleteMany", "EDelete", "Maintain", "ProbeAll", "ECreate")):
         if ophist[need] == 0:
